@@ -128,6 +128,56 @@ impl Layer for UpdateDefaultLayer {
     }
 }
 
+/// keeps the layer and records what the strategy callback is shown as the layer's build environment
+struct ProbeLayer {
+    seen: std::rc::Rc<std::cell::RefCell<Option<PlainEnv>>>,
+}
+impl Layer for ProbeLayer {
+    type Buildpack = VB;
+    type Metadata = GenericMetadata;
+    fn types(&self) -> LayerTypes {
+        LayerTypes { launch: true, build: true, cache: true }
+    }
+    fn create(&mut self, _c: &BuildContext<VB>, _p: &Path) -> Result<LayerResult<GenericMetadata>, VErr> {
+        LayerResultBuilder::new(None).build()
+    }
+    fn existing_layer_strategy(&mut self, _c: &BuildContext<VB>, d: &LayerData<GenericMetadata>) -> Result<ExistingLayerStrategy, VErr> {
+        *self.seen.borrow_mut() = Some(plain_of(&d.env.apply_to_empty(libcnb::layer_env::Scope::Build)));
+        Ok(ExistingLayerStrategy::Keep)
+    }
+}
+
+/// An env directory that cannot be read completely (a dangling symlink among its files): the call
+/// may fail, but a layer handed to the strategy callback shows the implicit entries its directories
+/// are due (it is never "a layer without environment").
+fn broken_env_dir(assign: [usize; 4]) -> (u64, Vec<Viol>) {
+    let mut viols = Vec::new();
+    let mut evals = 0;
+    for which in ["env", "env.build", "env.launch"] {
+        let sc = Scratch::new("c10b");
+        let ctx = mk_context(&sc.path);
+        let layer = ctx.layers_dir.join("a");
+        make_layer(&layer, &sc.path.join("outside"), assign);
+        std::fs::write(ctx.layers_dir.join("a.toml"), "[types]\ncache = true\nbuild = true\nlaunch = true\n").unwrap();
+        std::fs::create_dir_all(layer.join(which)).unwrap();
+        std::fs::write(layer.join(which).join("FOO.override"), "1").unwrap();
+        std::os::unix::fs::symlink(sc.path.join("nowhere"), layer.join(which).join("BROKEN.override")).unwrap();
+        let seen = std::rc::Rc::new(std::cell::RefCell::new(None));
+        let r = ctx.handle_layer("a".parse().unwrap(), ProbeLayer { seen: seen.clone() });
+        evals += 1;
+        if let Some(env) = seen.borrow().clone() {
+            let want = reference(&layer, assign, &AbsEnv::new(), &Sc::Build, &PlainEnv::new());
+            for (k, v) in &want {
+                if env.get(k) != Some(v) {
+                    viols.push(("implicit-entry-missing-with-unreadable-env-dir".into(), format!("layer {:?} whose {which}/ holds a dangling symlink: the strategy callback was shown the build environment {} (call result ok={}), but {} is due", (0..4).map(|i| format!("{}={}", SUBDIRS[i], KINDS[assign[i]])).collect::<Vec<_>>(), fmt_plain(&env), r.is_ok(), fmt_plain(&want)).replace(sc.path.to_str().unwrap(), "<root>"), json!({"assign": assign, "broken": which})));
+                    break;
+                }
+            }
+        }
+    }
+    (evals, viols)
+}
+
 fn env_part(s: &Snapshot) -> Snapshot {
     s.filter_top(|t| t == b"env" || t == b"env.build" || t == b"env.launch")
 }
@@ -351,13 +401,23 @@ pub fn run(args: &Args) {
             rep.violation(&sig, what, r);
         }
     }
+    // env directories holding a dangling symlink, through the trait API
+    let bres: Vec<_> = pf_assigns.par_iter().map(|a| broken_env_dir(*a)).collect();
+    let mut be = 0u64;
+    for (e, v) in bres {
+        be += e;
+        for (sig, what, r) in v {
+            rep.violation(&sig, what, r);
+        }
+    }
+    rep.cov("broken_env_dir_evaluations", be);
     rep.cov("path_form_evaluations", pf);
     rep.cov("evaluations", evals + fix + pf);
     rep.cov("apply_evaluations", evals);
     rep.cov("fixpoint_cycles_run", fix);
     rep.cov("distinct_nontrivial", outcomes.len() as u64);
     rep.cov("distinct_outcomes", outcomes.len() as u64);
-    rep.cov("rule", "all 6^4 assignments of {absent, dir (holding nested directories called like the four, e.g. lib/pkgconfig), file, symlink->dir, symlink->file, dangling symlink} to bin/lib/include/pkgconfig, plus two kinds that fail to resolve with ELOOP / ENOTDIR (quick: all 4^4 over {absent, dir, ELOOP, ENOTDIR}; thorough: all 8^4) x 10 explicit envs (two with a non-empty per-process directory, three whose value is exactly the layer's own bin/lib path) on the same variables x 4 start envs (unset, set, empty, beginning and ending with the separator) x 4 query scopes, each read by the real read_from_layer_dir and compared with the reference (apply_to_empty must equal apply on the empty environment); per assignment x explicit env, read->write cycles by 6 routes (LayerEnv, cached_layer keep+read_env/write_env, handle_layer Keep, handle_layer Update with the default impl, the last two also on a restored layer whose toml has no [types]) must leave the env directories unchanged, and read -> insert (3 entries on variables that have implicit values) -> write must add exactly the inserted entry; layer directory spellings: all 3^4 assignments over {absent, dir, link->dir} x 7 spellings of the layer path (non-UTF-8 component, trailing slash, ./.. segments, symlinked parent, space/colon/'=', a \\\\?\\ component, U+FFFD/non-ASCII) x 3 scopes x 4 start envs: the implicit value is the handed-over path joined with the sub-directory, byte for byte. distinct_nontrivial = distinct (scope, resulting environment) outcomes with the scratch path normalised");
+    rep.cov("rule", "all 6^4 assignments of {absent, dir (holding nested directories called like the four, e.g. lib/pkgconfig), file, symlink->dir, symlink->file, dangling symlink} to bin/lib/include/pkgconfig, plus two kinds that fail to resolve with ELOOP / ENOTDIR (quick: all 4^4 over {absent, dir, ELOOP, ENOTDIR}; thorough: all 8^4) x 10 explicit envs (two with a non-empty per-process directory, three whose value is exactly the layer's own bin/lib path) on the same variables x 4 start envs (unset, set, empty, beginning and ending with the separator) x 4 query scopes, each read by the real read_from_layer_dir and compared with the reference (apply_to_empty must equal apply on the empty environment); per assignment x explicit env, read->write cycles by 6 routes (LayerEnv, cached_layer keep+read_env/write_env, handle_layer Keep, handle_layer Update with the default impl, the last two also on a restored layer whose toml has no [types]) must leave the env directories unchanged, and read -> insert (3 entries on variables that have implicit values) -> write must add exactly the inserted entry; env directories with a dangling symlink among their files (3^4 assignments x 3 directories, through handle_layer: the call may fail, but a layer shown to the strategy callback carries the implicit entries); layer directory spellings: all 3^4 assignments over {absent, dir, link->dir} x 7 spellings of the layer path (non-UTF-8 component, trailing slash, ./.. segments, symlinked parent, space/colon/'=', a \\\\?\\ component, U+FFFD/non-ASCII) x 3 scopes x 4 start envs: the implicit value is the handed-over path joined with the sub-directory, byte for byte. distinct_nontrivial = distinct (scope, resulting environment) outcomes with the scratch path normalised");
     rep.cov("bound", json!({"assignments": assigns.len(), "explicit_envs": 10, "start_envs": 4, "scopes": 4, "cycles": cycles, "routes": 6}));
     rep.cov("exhaustive", true);
     rep.sample(json!({"assignment": {"bin": "link->dir", "lib": "file", "include": "dir", "pkgconfig": "dangling"}, "explicit": "PATH append+delim in build", "scope": "Build", "start": "all five variables set"}));
